@@ -169,7 +169,7 @@ impl Scenario for C33Scn {
         "C33"
     }
     fn rule(&self) -> &'static str {
-        "over a pair of real connections the corpus interface (11 methods with integers, strings, tuples, arrays, dicts, variants, nested structs, fallible and custom-error returns; properties of every mode; one signal) is driven through its macro-generated proxies: an async proxy on a task (0..8 operations incl. property reads/writes and a method that takes 1..4 file descriptors and returns them in another order, with or without the property cache) and a blocking proxy on a real thread parked and released by the simulator (0..5 method calls), both with seeded argument values; in addition 0..4 async and 0..3 blocking calls go through the macro-generated proxies of the 16 generated interfaces (signatures drawn from the type grammar; echo handlers; values seeded) and each result must equal what was sent (or the error the handler was asked for), each call reaching exactly its handler once; the server emits 0..3 signals once both are subscribed; oracle: every result equals a typed model of the handlers, the handler log equals the calls made (argument values included), property reads follow the writes, both signal streams yield exactly the emitted arguments in order; non-trivial = the async and the blocking client both made calls, or a property was written and read back"
+        "over a pair of real connections the corpus interface (11 methods with integers, strings, tuples, arrays, dicts, variants, nested structs, fallible and custom-error returns; properties of every mode; one signal) is driven through its macro-generated proxies: an async proxy on a task (0..8 operations incl. property reads/writes and a method that takes 1..4 file descriptors and returns them in another order, with or without the property cache) and a blocking proxy on a real thread parked and released by the simulator (0..5 method calls), both with seeded argument values; in addition 0..4 async and 0..3 blocking calls go through the macro-generated proxies of the 16 generated interfaces (signatures drawn from the type grammar; echo handlers; values seeded) and each result must equal what was sent (or the error the handler was asked for), each call reaching exactly its handler once; the server emits 0..3 signals once both are subscribed; oracle: every result equals a typed model of the handlers, the handler log equals the calls made (argument values included), property reads follow the writes, both signal streams yield exactly the emitted arguments in order, and a second pair of streams filtered on the signal's second argument (receive_tick_with_args) yields exactly the matching ones; non-trivial = the async and the blocking client both made calls, or a property was written and read back"
     }
     fn runs(&self, tier: Tier) -> u64 {
         match tier {
@@ -321,12 +321,16 @@ impl Scenario for C33Scn {
         let subscribed = shared((false, false));
         let got_async = shared(Vec::<(u32, String)>::new());
         let got_blocking = shared(Vec::<(u32, String)>::new());
+        // streams filtered on the signal's second argument (`receive_tick_with_args(&[(1, "tick-1")])`)
+        let got_async_filtered = shared(Vec::<(u32, String)>::new());
+        let got_blocking_filtered = shared(Vec::<(u32, String)>::new());
         let failures = shared(Vec::<String>::new());
         // (interface, member, canonical arguments) of every generated call / property write made
         let sent_log = shared(Vec::<(String, String, String)>::new());
         let gen_sig_seen = shared(0usize);
 
         // ---- async client ----
+        let gaf = got_async_filtered.clone();
         let (cl, ops, cached, mm, sub, ga, fl, ww, gens, gprops, gsigs, sl, seen) = (client.clone(), p.async_ops.clone(), p.cached, mismatches.clone(), subscribed.clone(), got_async.clone(), failures.clone(), w.clone(), p.gen_async.clone(), (p.gen_handles.clone(), p.gen_prop_ops.clone()), p.gen_signals.clone(), sent_log.clone(), gen_sig_seen.clone());
         let async_client = w.spawn("async-client", async move {
             let px = match SimAProxy::builder(&cl).cache_properties(if cached { zbus::proxy::CacheProperties::Lazily } else { zbus::proxy::CacheProperties::No }).build().await {
@@ -381,6 +385,20 @@ impl Scenario for C33Scn {
                     }
                 }
             }
+            let mut filtered = match px.receive_tick_with_args(&[(1, "tick-1")]).await {
+                Ok(s) => s,
+                Err(e) => {
+                    fl.lock().unwrap().push(format!("async receive_tick_with_args: {e}"));
+                    return;
+                }
+            };
+            let filtered_consumer = ww.spawn("async-filtered-signal-consumer", async move {
+                while let Some(t) = filtered.next().await {
+                    if let Ok(a) = t.args() {
+                        gaf.lock().unwrap().push((a.n, a.what.to_string()));
+                    }
+                }
+            });
             sub.lock().unwrap().0 = true;
             let consumer = ww.spawn("async-signal-consumer", async move {
                 while let Some(t) = ticks.next().await {
@@ -506,9 +524,12 @@ impl Scenario for C33Scn {
                 t.await;
             }
             consumer.await;
+            filtered_consumer.await;
         });
 
         // ---- blocking client on a baton thread ----
+        let gbf = got_blocking_filtered.clone();
+        let nfiltered = p.signals.iter().filter(|s| s.1 == "tick-1").count();
         let (cl, ops, mm, sub, gb, fl, nsig, gens, gprops, gsigs, sl, seen) = (client.clone(), p.blocking_ops.clone(), mismatches.clone(), subscribed.clone(), got_blocking.clone(), failures.clone(), p.signals.len(), p.gen_blocking.clone(), (p.gen_handles.clone(), p.gen_prop_ops.clone()), p.gen_signals.clone(), sent_log.clone(), gen_sig_seen.clone());
         w.spawn_thread("blocking-client", move || {
             let bconn = zbus::blocking::Connection::from(cl);
@@ -556,6 +577,13 @@ impl Scenario for C33Scn {
                     }
                 }
             }
+            let mut filtered = match px.receive_tick_with_args(&[(1, "tick-1")]) {
+                Ok(s) => s,
+                Err(e) => {
+                    fl.lock().unwrap().push(format!("blocking receive_tick_with_args: {e}"));
+                    return;
+                }
+            };
             sub.lock().unwrap().1 = true;
             for (i, op) in ops.iter().enumerate() {
                 if let MOp::SwapFds(n) = op {
@@ -630,6 +658,16 @@ impl Scenario for C33Scn {
                     None => break,
                 }
             }
+            for _ in 0..nfiltered {
+                match filtered.next() {
+                    Some(t) => {
+                        if let Ok(a) = t.args() {
+                            gbf.lock().unwrap().push((a.n, a.what.to_string()));
+                        }
+                    }
+                    None => break,
+                }
+            }
             for (i, k, si, seed, wait) in waiters {
                 if let Some(e) = wait(seed) {
                     mm.lock().unwrap().push(format!("blocking gensig {i} I{k}.S{si}: {e}"));
@@ -693,6 +731,18 @@ impl Scenario for C33Scn {
         }
         if gb != p.signals {
             return Verdict::fail("signal", "blocking-iterator-differs", format!("emitted {:?}, blocking iterator yielded {gb:?}", p.signals));
+        }
+        let want_filtered: Vec<(u32, String)> = p.signals.iter().filter(|s| s.1 == "tick-1").cloned().collect();
+        let gaf = got_async_filtered.lock().unwrap().clone();
+        let gbf = got_blocking_filtered.lock().unwrap().clone();
+        if gaf != want_filtered {
+            return Verdict::fail("signal", "async-filtered-stream-differs", format!("emitted {:?}; the stream filtered on argument 1 == \"tick-1\" yielded {gaf:?}", p.signals));
+        }
+        if gbf != want_filtered {
+            return Verdict::fail("signal", "blocking-filtered-iterator-differs", format!("emitted {:?}; the iterator filtered on argument 1 == \"tick-1\" yielded {gbf:?}", p.signals));
+        }
+        if !want_filtered.is_empty() {
+            w.count("probe.signal_matched_an_argument_filter");
         }
         // handler log == calls made
         let mut want_log: Vec<(String, String)> = p.async_ops.iter().chain(p.blocking_ops.iter()).filter_map(|o| expect_stateless(o).map(|(m, a, _)| (m.to_string(), a))).collect();
